@@ -152,6 +152,17 @@ def verify(code=None, filename=DEFAULT_STUDENT_FILENAME, report=MAIN_REPORT,
                      sys.exc_info(), report=report, muted=muted, enhance=enhance)
         report[TOOL_NAME]['success'] = False
         report[TOOL_NAME]['ast'] = ast.parse("")
+    except (ValueError, MemoryError, RecursionError) as e:
+        # The parser can also give up without a SyntaxError: a lone surrogate
+        # cannot be encoded for it, or the nesting is too deep for its stack.
+        # The code does not parse, and there is no position to point at.
+        try:
+            raise SyntaxError(str(e) or type(e).__name__, (filename, 1, 1, "")) from e
+        except SyntaxError as unparsable:
+            syntax_error(unparsable.lineno, unparsable.filename, code, unparsable.offset, unparsable,
+                         sys.exc_info(), report=report, muted=muted, enhance=enhance)
+        report[TOOL_NAME]['success'] = False
+        report[TOOL_NAME]['ast'] = ast.parse("")
     else:
         report[TOOL_NAME]['success'] = True
     return report[TOOL_NAME]['success']
